@@ -166,7 +166,7 @@ def create_checks(cf, trace, sid):
             fds = [(r, c) for r in init["regions"] for c in init["fdcats"]]
             flags = []
             for e in evs:
-                if e["type"] != "rebuild" or e.get("ctor", "series") != "series":
+                if e["type"] != "rebuild" or e.get("ctor", "series") not in ("series", "scalar_industries"):
                     continue
                 conv = (e.get("emf") or 1) / init["mu"]
                 imp = np.zeros(N)
